@@ -44,35 +44,66 @@ def _partial(pid, decided, notdecided, rules):
     )
 
 
-G = "assume-and-explore guard analysis (path-sensitive range propagation over LLVM IR)"
+G = "assume-and-explore guard analysis (path-sensitive range/relation propagation over LLVM IR)"
+TAB = "table-agreement relations over the IR initialisers"
+WIT = "compile-fail witnesses"
+CF = "closed-form evaluation of extracted expression DAGs"
+BW = "bounded-write relation analysis"
 CHECKS.update({
- "C01": _partial("C01", "no path of isValidCell returns true unless each of its five tests passed (top bits, base cell <= 121, no 7 up to res, all 7 after res, "
-                 "no deleted sub-sequence), each helper receives the index and the right bit field, and all five passing yields true.",
+ "C01": _partial("C01", "(1) the documented layout (field offsets/widths/masks, H3_INIT, mode value, counts, digit 7) as compile-time witnesses; (2) no path of isValidCell "
+                 "returns true unless each of its five tests passed (top bits, base cell <= 121, no 7 up to res, all 7 after res, no deleted sub-sequence), each helper "
+                 "receives the index and the right bit field, and all five passing yields true; (3) the pentagon set used by the validity test equals the pentagon set of baseCellData.",
                  "equality of the carry trick / clz%3 test with the digit predicate over 2^64 values (needs bit-precise carry reasoning: solver family); the closure clause over all outputs.",
-                 "R-CONJ " + G),
- "C02": _partial("C02", "res outside 0..15 => E_RES_DOMAIN, non-finite lat/lng => E_LATLNG_DOMAIN, never success, no index written; boundary resolutions still accepted.",
-                 "containment of the point in the returned cell (floating-point geometry), success on arbitrary finite coordinates.", "R-GUARD " + G),
- "C04": _partial("C04", "the rejection clauses of cellToParent (E_RES_DOMAIN / E_RES_MISMATCH), cellToChildrenSize and cellToCenterChild (E_RES_DOMAIN), for every index and resolution.",
-                 "the enumeration, order and partition clauses (arithmetic over all digit strings).", "R-GUARD " + G),
- "C05": _partial("C05", "k < 0 => E_DOMAIN on all seven entry points, never success.",
-                 "equality with BFS, ring order, pentagon case analysis (data-dependent).", "R-GUARD " + G),
- "C06": _partial("C06", "uncompactCells: a target resolution coarser than a visited cell (or above 15) => E_RES_MISMATCH, never success.",
-                 "losslessness / canonicity / order independence of compactCells (runtime data structure).", "R-GUARD " + G),
- "C09": _partial("C09", "E_RES_MISMATCH for cells of different resolution on gridDistance, gridPathCellsSize, gridPathCells, cellToLocalIj; mode != 0 => E_OPTION_INVALID.",
-                 "distance = graph distance, inverse pair (data-dependent).", "R-GUARD " + G),
+                 "R-CONJ " + G + "; R-TAB T7 " + TAB + "; R-WIT " + WIT),
+ "C02": _partial("C02", "res outside 0..15 => E_RES_DOMAIN, non-finite lat/lng => E_LATLNG_DOMAIN, never success, no index written, boundary resolutions accepted; the face-centre "
+                 "table that picks the face agrees with the one that projects onto it (T6); paired projection constants are mutually inverse (T16).",
+                 "containment of the point in the returned cell (floating-point geometry), success on arbitrary finite coordinates.", "R-GUARD " + G + "; R-TAB T6,T16 " + TAB),
+ "C03": _partial("C03", "getNumCells = 2+120*7^res for res 0..15 and equals 110 hexagon + 12 pentagon trees of the tables; pentagonCount/res0CellCount/enumerator bounds agree with "
+                 "the tables (T7); every base cell's home address looks itself up, cross-face lookup entries agree (T4), face adjacency maps are mutual inverses (T5), "
+                 "overage scale tables (T9); res-domain rejections of getNumCells/getPentagons.",
+                 "latLngToCell(cellToLatLng(h)) = h for 5.7e14 cells (numeric); validity of getPentagons' cells at res > 0.", "R-CFORM " + CF + "; R-TAB T4,T5,T7,T9 " + TAB + "; R-GUARD " + G),
+ "C04": _partial("C04", "the rejection clauses of cellToParent (E_RES_DOMAIN / E_RES_MISMATCH), cellToChildrenSize and cellToCenterChild (E_RES_DOMAIN) for every index and resolution; "
+                 "cellToChildrenSize = 7^n (hexagon) / 1+5(7^n-1)/6 (pentagon) with n = childRes - res(h) for all 136 resolution pairs.",
+                 "the enumeration, order and partition clauses (arithmetic over all digit strings).", "R-GUARD " + G + "; R-CFORM " + CF),
+ "C05": _partial("C05", "all live entries of the tables the neighbour step reads: digit transition tables = unique aperture-7 decomposition (T1), hexagon rows of both base-cell "
+                 "tables derive from the face lookup (T2), adjacency symmetric with consistent rotations incl. the pentagon wedge rule (T3), digit rotation = coordinate rotation (T10), "
+                 "sibling shortcut of areNeighborCells (T11), pentagon markers (T7); k < 0 => E_DOMAIN on all seven entry points; maxGridDiskSize = 3k(k+1)+1 without overflow.",
+                 "the pentagon special cases in h3NeighborRotations, equality with BFS, ring order, hash-set slot bounds (path- and data-dependent).",
+                 "R-TAB T1,T2,T3,T7,T10,T11 " + TAB + "; R-GUARD " + G + "; R-CFORM " + CF),
+ "C06": _partial("C06", "uncompactCells writes outSet[i] only where i < numOut and returns E_MEMORY_BOUNDS when the capacity is reached; a target resolution coarser than a visited "
+                 "cell (or above 15) => E_RES_MISMATCH, never success.",
+                 "losslessness / canonicity / order independence of compactCells (runtime data structure).", "R-BW " + BW + "; R-GUARD " + G),
+ "C08": _partial("C08", "face adjacency/rotation tables are mutual inverses (T5), overage tables (T9), substrate vertex tables are closed ccw rings and the pentagon ones are their "
+                 "first five rows (T13); cellAreaKm2 = Rads2*R^2, cellAreaM2 = Km2*10^6.",
+                 "vertex counts, ccw order, coincidence of shared edges, areas summing to 4*pi (numeric geometry).", "R-TAB T5,T9,T13 " + TAB + "; R-CFORM " + CF),
+ "C09": _partial("C09", "E_RES_MISMATCH for cells of different resolution on gridDistance, gridPathCellsSize, gridPathCells, cellToLocalIj; mode != 0 => E_OPTION_INVALID; the lattice "
+                 "tables that define 'neighbour' and that cellToLocalIjk unfolds with (T1,T2,T3,T10); PENTAGON_ROTATIONS_REVERSE undoes PENTAGON_ROTATIONS (T14).",
+                 "distance = graph distance, inverse pair beyond T14, the _POLAR/_NONPOLAR tables.", "R-GUARD " + G + "; R-TAB T1,T2,T3,T10,T14 " + TAB),
  "C10": _partial("C10", "isValidDirectedEdge conjuncts (direction 1..6, mode 2 via getDirectedEdgeOrigin, not K on a pentagon, valid origin) and acceptance when all hold; "
-                 "E_NOT_NEIGHBORS and E_DIR_EDGE_INVALID clauses.", "boundary stretch geometry, destination round trip.", "R-CONJ, R-GUARD " + G),
- "C11": _partial("C11", "isValidVertex conjuncts (mode 4, valid owner, re-derivation succeeds, index equals the canonical one); vertex numbers outside the cell's range => E_DOMAIN.",
-                 "agreement of the three incident cells, 2N-4 count, coordinates.", "R-CONJ, R-GUARD " + G),
- "C12": _partial("C12", "all rows of the guard table (every documented rejection of an out-of-domain scalar: never success, documented code reachable, no write where stated).",
-                 "absence of undefined behaviour in general, hash-probe bounds, NEVER()/ALWAYS() reachability (statements about reachable values).", "R-GUARD/R-CONJ " + G),
- "C13": _partial("C13", "the three rejection clauses of childPosToCell (E_RES_DOMAIN, E_RES_MISMATCH, E_DOMAIN via validateChildPos incl. position == size) and of cellToChildPos.",
-                 "that the two digit/offset loops are mutually inverse and in cellToChildren order.", "R-GUARD " + G),
- "C14": _partial("C14", "resolution-mismatch rejection of gridPathCells / gridPathCellsSize.", "contiguity / shortest path (floating interpolation).", "R-GUARD " + G),
- "C15": _partial("C15", "flags outside {0,1,2,3} => E_OPTION_INVALID on both experimental entry points (never success).",
-                 "what each containment mode means geometrically, nestedness, the size estimate being an upper bound.", "R-GUARD " + G),
- "C20": _partial("C20", "sz < 17 => E_MEMORY_BOUNDS with the buffer untouched and sz = 17 accepted; stringToH3 stores a result only when exactly one item was converted, otherwise returns an error.",
-                 "nothing beyond the libc semantics of the conversion (format check pending).", "R-GUARD " + G),
+                 "E_NOT_NEIGHBORS and E_DIR_EDGE_INVALID clauses; direction<->vertex-number maps (T8), pentagon direction/face table (T12); edgeLengthKm/M unit factors.",
+                 "boundary stretch geometry, destination round trip.", "R-CONJ/R-GUARD " + G + "; R-TAB T8,T12 " + TAB + "; R-CFORM " + CF),
+ "C11": _partial("C11", "isValidVertex conjuncts (mode 4, valid owner, re-derivation succeeds, index equals the canonical one); vertex numbers outside the cell's range => E_DOMAIN; "
+                 "T8, T12, pentagon set of pentagonDirectionFaces (T7).",
+                 "agreement of the three incident cells, 2N-4 count, coordinates.", "R-CONJ/R-GUARD " + G + "; R-TAB T7,T8,T12 " + TAB),
+ "C12": _partial("C12", "every row of the guard table (each documented rejection of an out-of-domain scalar: never success, documented code reachable, no write where stated); "
+                 "every function can only return codes 0..15 (value-set fixpoint over returns, parameters, error fields); error enum witnesses; maxGridDiskSize closed form.",
+                 "absence of undefined behaviour in general, hash-probe bounds, NEVER()/ALWAYS() reachability (statements about reachable values).",
+                 "R-GUARD/R-CONJ " + G + "; R-RET error-code value-set propagation; R-WIT " + WIT),
+ "C13": _partial("C13", "the three rejection clauses of childPosToCell (E_RES_DOMAIN, E_RES_MISMATCH, E_DOMAIN via validateChildPos incl. position == size) and of cellToChildPos; "
+                 "the child-count closed forms both directions validate against (cellToChildrenSize).",
+                 "that the two digit/offset loops are mutually inverse and in cellToChildren order.", "R-GUARD " + G + "; R-CFORM " + CF),
+ "C14": _partial("C14", "announced size = gridDistance + 1 (errors passed on, nothing stored); gridPathCells writes out[n] only for n <= distance of the same callee's result, also on "
+                 "the failing exits; resolution-mismatch rejection.", "contiguity / shortest path (floating interpolation).", "R-CFORM " + CF + "; R-BW " + BW + "; R-GUARD " + G),
+ "C15": _partial("C15", "out[i] only where i < size, E_MEMORY_BOUNDS when the capacity is reached; flags outside {0,1,2,3} => E_OPTION_INVALID on both experimental entry points; "
+                 "containment-mode enum/mask witnesses.",
+                 "what each containment mode means geometrically, nestedness, the size estimate being an upper bound.", "R-BW " + BW + "; R-GUARD " + G + "; R-WIT " + WIT),
+ "C19": _partial("C19", "maxFaceCount = 5 for a pentagon else 2; getIcosahedronFaces initialises and writes only slots below that count (relation facts incl. the insertion loop); "
+                 "face adjacency tables (T5, T9).",
+                 "that the reported faces are exactly the intersected ones (overage geometry).", "R-CFORM " + CF + "; R-BW " + BW + "; R-TAB T5,T9 " + TAB),
+ "C20": _partial("C20", "one unpadded lower-case 64-bit %x applied to the whole index and written to str; longest output (derived from the format) + NUL never reachable with a "
+                 "smaller sz; sz < 17 => E_MEMORY_BOUNDS with the buffer untouched and sz = 17 accepted; stringToH3 parses with the same conversion, stores only when exactly one item "
+                 "was converted, otherwise returns an error. Given the C standard's semantics of %lx these imply the round trip for all 2^64 values.",
+                 "nothing beyond the libc semantics of the conversion.", "R-FMT format-string analysis; R-GUARD " + G),
 })
 
 NA = {
